@@ -58,6 +58,13 @@ pub fn key_pool() -> Vec<Ex> {
         call("V", vec![fl(f64::NAN), int(1)]),
         Ex::List(vec![fl(f64::NAN)]),
         Ex::Dict(None, vec![(int(2), Some(call("V", vec![fl(f64::NAN)])))]),
+        // 2^62 three ways: by exponentiation (big-backed), as a literal (small) and as a float
+        Ex::Num(NumLit::Pow2(62)),
+        Ex::Num(NumLit::Big("4611686018427387904".into())),
+        fl(4611686018427387904.0),
+        // -2^63 by exponentiation and by small-integer arithmetic
+        bin(int(0), "-", Ex::Num(NumLit::Pow2(63))),
+        bin(bin(int(0), "-", Ex::Num(NumLit::Big("9223372036854775807".into()))), "-", int(1)),
     ]
 }
 
@@ -75,7 +82,7 @@ pub fn generate(seed: u64, fault_free: bool) -> DictOut {
     // a run works with a small subset so that collisions between equal spellings are frequent
     let n_keys = 3 + g.rng.below(5);
     let mut keys: Vec<Ex> = Vec::new();
-    let group_starts = [0usize, 4, 6, 10, 12, 15, 17, 23, 25, 27, 29, 32, 33, 34];
+    let group_starts = [0usize, 4, 6, 10, 12, 15, 17, 23, 25, 27, 29, 32, 33, 34, 35, 35, 38];
     for _ in 0..n_keys {
         if g.rng.chance(2, 3) {
             // pick inside one equality group
@@ -144,6 +151,22 @@ pub fn generate(seed: u64, fault_free: bool) -> DictOut {
                 g.push(
                     "store",
                     Ex::Assign(false, Box::new(Lv::Ident(d, vec![Ix::Index(k)])), Box::new(v)),
+                    vec![],
+                )
+            }
+            2 if g.rng.chance(1, 4) => {
+                // `(d[k] = dflt) f= v`: the default is used exactly when no equal key is present
+                nontrivial = true;
+                let k = key!();
+                let dflt = int(g.rng.range(10, 19));
+                g.push(
+                    "op-store-lvalue-default",
+                    Ex::OpAssign(
+                        false,
+                        Box::new(Lv::Default(Box::new(Lv::Ident(d, vec![Ix::Index(k)])), Box::new(dflt))),
+                        "+".into(),
+                        Box::new(int(1)),
+                    ),
                     vec![],
                 )
             }
